@@ -632,6 +632,10 @@ func runC05UDP(c C05E2E, info *kit.Info) *kit.Finding {
 	if !fence() {
 		return kit.Violation("policy:loop-stopped", "the packet loop stopped processing datagrams after destination %+v", c.Dest)
 	}
+	if allowed {
+		// the fence says the server has sent it; give the sink's reader goroutine time to pick it up
+		kit.WaitFor(3*time.Second, func() bool { return ctl.Queued() > 0 })
+	}
 	time.Sleep(500 * time.Microsecond)
 	info.Class("dest:"+c.Dest.Kind, fmt.Sprintf("pos:%d", pos), fmt.Sprintf("allowed:%v", allowed))
 	info.NonTrivial = pos >= 1 || c.Dest.Kind == "host" && len(c.Dest.Answers) >= 2 || strings.Contains(c.Dest.Addr, "ffff") || c.Dest.Kind == "ipdomain" || c.Dest.Kind == "empty"
